@@ -125,6 +125,15 @@ def scenarios(tier: str) -> List[Dict[str, Any]]:
             pre = position_events(tc, "D", "connected", extra_sub=P.MT_FAILED_MESSAGE)
             out.append(dict(tc=tc, grace=grace, flip=flip, pre=pre, leave=[[how, "D"], ev_send("P", fr(tc, T1, b"nw", src_mod_id=IDS["P"]))], orders=True,
                             nonwritable=["S"], leavers=[("D", "connected")], label=f"write-failed-delivery/{how}"))
+        # discovery while a manager-originated CLIENT_INFO is being delivered (another subscriber is served after the leaver)
+        for how in ("fin", "rst"):
+            pre = position_events(tc, "D", "connected", extra_sub=P.MT_CLIENT_INFO) + position_events(tc, "E", "connected", extra_sub=P.MT_CLIENT_INFO)
+            out.append(dict(tc=tc, grace=grace, flip=flip, pre=pre,
+                            leave=[[how, "D"], ev_send("P", fr(tc, P.MT_MODULE_READY, P.P_READY.pack(4321), src_mod_id=IDS["P"]))], orders=True,
+                            leavers=[("D", "connected")], label=f"write-info-delivery/{how}"))
+            out.append(dict(tc=tc, grace=grace, flip=flip, pre=pre,
+                            leave=[[how, "D"], [how, "E"], ev_send("P", fr(tc, P.MT_CLIENT_SET_NAME, P.P_NAME.pack(b"pee"), src_mod_id=IDS["P"]))], orders=True,
+                            leavers=[("D", "connected"), ("E", "connected")], label=f"write-info-delivery-two/{how}"))
         # two leavers in the same round
         ways = ["fin", "rst", "DISCONNECT", "mid"]
         ppos = ("subscribed", "suball", "logger") if tier == "thorough" else ("subscribed", "suball")
@@ -218,6 +227,43 @@ def _own(probs):
     return any(p["prop"] in ("C07", "C03") for p in probs)
 
 
+def dynamic_churn(args) -> Dict[str, Any]:
+    """more dynamic clients come and go (in every way of leaving) than there are dynamic ids: every connect must be acknowledged"""
+    tc, flip, cycles = args
+    mmx.fresh_gc()
+    env = lock.Env(timecode=tc, fin_grace=0, hids={"M": 1, "S": 2, "P": 3, "D": 5 if flip else 4, "E": 4 if flip else 5})
+    probs: List[Dict[str, Any]] = []
+    try:
+        for ev in setup_events(tc):
+            env.apply(ev)
+        ways = ("DISCONNECT", "fin", "rst", "mid")
+        for n in range(cycles):
+            env.apply(["conn", "D"])
+            env.apply(ev_send("D", fr(tc, P.MT_CONNECT_V2, P.p_connect_v2(0, 0, 0, 0, 9, b"dyn"))))
+            env.settle()
+            acks = [k for k in env.received["D"] if k[0] == "ack"]
+            if len(acks) != 1 or not (P.DYN_MOD_ID_START <= acks[0][1] < P.MAX_MODULES):
+                probs.append({"prop": "C07", "kind": "dynamic-id-not-reusable", "cycle": n, "acks": [list(a) for a in acks]})
+                break
+            way = ways[n % len(ways)]
+            if way == "DISCONNECT":
+                env.apply(ev_send("D", fr(tc, P.MT_DISCONNECT, src_mod_id=acks[0][1])))
+                env.settle()
+                env.apply(["fin", "D"])
+            elif way == "mid":
+                env.apply(ev_send("D", fr(tc, T1, b"cut short", src_mod_id=acks[0][1])[:50]))
+                env.apply(["rst", "D"])
+            else:
+                env.apply([way, "D"])
+            env.settle()
+            if env.dead:
+                break
+        probs += [dict(p) for p in env.problems if p["prop"] in ("C07", "C03", "C19")]
+    finally:
+        env.close()
+    return {"problems": probs, "rounds": env.rounds}
+
+
 def run_case(sc) -> List[Dict[str, Any]]:
     res = []
     k = 0
@@ -248,6 +294,8 @@ def run(tier: str) -> int:
     scs = scenarios(tier)
     chunks = core.chunks(core.shuffled(scs, "c07"), 12)
     res = core.pmap(run_chunk, chunks)
+    churn_args = [(False, False, 104), (True, True, 104)] if tier == "quick" else [(False, False, 230), (True, True, 230), (False, True, 104)]
+    churn = core.pmap(dynamic_churn, churn_args)
     core.close_pool()
     flat = [s for ch in chunks for s in ch]
     i = 0
@@ -269,6 +317,11 @@ def run(tier: str) -> int:
                     chk.violation(f"{p['prop']}:{p['kind']}:{fk}", f"{sc['label']} order={r['order']}: {p}",
                                   {"module": "vf.checks.c07", "scenario": sc, "order": r["order"]},
                                   size=len(sc["pre"]) + len(sc["leave"]) * 3 + (50 if len(sc["leavers"]) > 1 else 0))
+    for a, r in zip(churn_args, churn):
+        execs += 1
+        rounds += r["rounds"]
+        for p in r["problems"]:
+            chk.violation(f"{p['prop']}:{p['kind']}:churn", f"dynamic churn {a}: {p}", {"module": "vf.checks.c07", "churn": list(a)}, size=5000)
     chk.sample({"label": scs[0]["label"], "leave": scs[0]["leave"]})
     chk.sample({"label": scs[-1]["label"], "leave": scs[-1]["leave"]})
     chk.assumptions += ["virtual TCP model (vf.net)", "reference hub (vf/spec.py)", "one or two leavers, one survivor, one monitor"]
@@ -277,6 +330,12 @@ def run(tier: str) -> int:
 
 
 def replay(case) -> int:
+    if "churn" in case:
+        r = dynamic_churn(tuple(case["churn"]))
+        for p in r["problems"]:
+            print("  PROBLEM:", p)
+        print("reproduced" if r["problems"] else "NOT reproduced")
+        return 1 if r["problems"] else 0
     sc, order = case["scenario"], case["order"]
     r1 = execute((sc, order))
     r2 = execute((sc, order))
